@@ -863,7 +863,8 @@ func (p *BinaryProtocol) EncodeText(desc *TypeDescriptor, buf *[]byte, byteAsUin
 			*buf = strconv.AppendInt(*buf, int64(uint8(b)), 10)
 			return nil
 		} else {
-			*buf = strconv.AppendInt(*buf, int64(b), 10)
+			// NOTICE: ReadByte() returns uint8, a thrift byte is signed unless byteAsUint8 is set
+			*buf = strconv.AppendInt(*buf, int64(int8(b)), 10)
 			return nil
 		}
 	case I16:
